@@ -274,9 +274,9 @@ pub fn def() -> PropDef {
         rule: "(expander in {XMD-SHA-256, XMD-SHA-512, XOF-SHAKE128, XOF-SHAKE256}, msg, dst, len) with message lengths 0, 1 and around every SHA-2 / SHAKE block boundary, occasional long messages (<= 20 kB), tags of length 0, 1, 16, 43, 254, 255 and others, lengths k*b+-1 for k up to 255, exact lengths up to 65535, and the must-abort class 255*b+1.. for XMD; 64-/48-/128-byte blocks (zero, all-ones, m*p+-d just around multiples of the modulus, uniform) through from_okm / from_ro; hash_to_field for Fq, Fr, Fq2 with count 0..=8 (occasionally up to 60). Oracle: model expand_message_xmd / _xof and OS2IP mod p written from RFC 9380 section 5. Non-trivial = partial block, block-boundary message, long tag or many blocks (expand); non-zero block; count >= 1; distinct = distinct cases",
         needs_pairing: false,
         subs: vec![
-            Box::new(Sub { name: "expand-message", rule: "bytes equal the RFC; requests beyond 255 blocks abort", quick: 6000, thorough: 250_000, strategy: || boxed(expand_case_strategy()), check: check_expand }),
-            Box::new(Sub { name: "block-reduction", rule: "from_okm / from_ro == OS2IP(block) mod p for Fq (64), Fr (48), Fq2 (2 x 64, real first)", quick: 20_000, thorough: 1_000_000, strategy: || boxed(okm_strategy()), check: check_okm }),
-            Box::new(Sub { name: "hash-to-field", rule: "hash_to_field::<Fq|Fr|Fq2, expander>(msg, dst, count) == consecutive reduced blocks of the model expansion", quick: 4000, thorough: 150_000, strategy: || boxed(h2f_strategy()), check: check_h2f }),
+            Box::new(Sub { name: "expand-message", rule: "bytes equal the RFC; requests beyond 255 blocks abort", quick: 60_000, thorough: 250_000, strategy: || boxed(expand_case_strategy()), check: check_expand }),
+            Box::new(Sub { name: "block-reduction", rule: "from_okm / from_ro == OS2IP(block) mod p for Fq (64), Fr (48), Fq2 (2 x 64, real first)", quick: 200_000, thorough: 1_000_000, strategy: || boxed(okm_strategy()), check: check_okm }),
+            Box::new(Sub { name: "hash-to-field", rule: "hash_to_field::<Fq|Fr|Fq2, expander>(msg, dst, count) == consecutive reduced blocks of the model expansion", quick: 40_000, thorough: 150_000, strategy: || boxed(h2f_strategy()), check: check_h2f }),
             super::corpus_sub_expand(),
         ],
         assumptions: {
